@@ -91,7 +91,7 @@ def gen_rates_d(rng):
 
 
 def gen_rates_g(rng):
-    n = rng.randrange(1, 40)
+    n = rng.randrange(1, 33)
     k = rng.random()
     if k < 0.1:
         rates = [rng.random()] * n
@@ -336,7 +336,7 @@ def run(ctx, replay_jobs=None, replay_glue=None):
         jobs = load_corpus() + f5_probe_jobs() + edge_jobs(rng)
         jobs += [Job("X", "X", gen_rates_x(rng)) for _ in range(ctx.n(1400, 50000))]
         jobs += [Job("D", "F", gen_rates_d(rng)) for _ in range(ctx.n(800, 25000))]
-        jobs += [Job("G", "F", gen_rates_g(rng)) for _ in range(ctx.n(800, 25000))]
+        jobs += [Job("G", "F", gen_rates_g(rng)) for _ in range(ctx.n(640, 25000))]
     preset = [j for j in jobs if j.samples]
     run_impl(ctx, jobs)                     # round 1: tables
     for j in jobs:
@@ -354,14 +354,14 @@ def run(ctx, replay_jobs=None, replay_glue=None):
             terms.append(t)
             owners.append(ji)
             kinds.append(kind)
-    neval, bad, nfiles, nok, err = C.eval_cases(ctx, "c18", HEADER, terms, "check_wcase", "wcase", per_file=150)
+    neval, bad, nfiles, nok, err = C.eval_cases(ctx, "c18", HEADER, terms, "check_wcase", "wcase", per_file=60)
     if err:
         broken.append("correspondence case files did not evaluate: " + err[-800:])
     approx = [i for i, k in enumerate(kinds) if k == "approx"]
     unstable = []
     if approx:
         _, ub, _, _, err2 = C.eval_cases(ctx, "c18s", HEADER, [terms[i] for i in approx], "wcase_stable", "wcase",
-                                         per_file=300)
+                                         per_file=40)
         if err2:
             broken.append("stability case files did not evaluate: " + err2[-500:])
         unstable = [approx[i] for i in ub]
